@@ -323,8 +323,11 @@ class Fn:
             cls = "other"
             if kind == "call":
                 c = callee_of(payload)
+                prog = getattr(self, "program", None)
                 if c.endswith("::from_residual"):
                     cls = "err"
+                elif prog is not None and prog.is_always_err(c):
+                    cls = "err"         # `return Error::invalid(..)`: the callee never returns Ok
                 else:
                     cls = "fwd"
             else:
@@ -953,12 +956,31 @@ def flows(fn, start_local, max_steps=200):
     return seen, sinks
 
 
-def load_program(cfg, crate=None):
+_PROGRAMS = {}
+
+
+def load_program(cfg, crate=None, inline=True):
+    key = (cfg, crate, inline)
+    if key not in _PROGRAMS:
+        _PROGRAMS[key] = _load_program(cfg, crate, inline)
+    return _PROGRAMS[key]
+
+
+def _load_program(cfg, crate=None, inline=True):
     import facts
     crates, info = facts.load(cfg)
     if crate is None:
         crate = list(crates.keys())[0]
-    return Program(crates[crate]), info
+    prog = Program(crates[crate])
+    if inline:
+        import inline as inl
+        known = inl.known_functions(cfg, crate)
+        if known is not None:
+            r = inl.Inliner(prog, known["fns"], known.get("direct_closures", ())).run()
+            info = dict(info)
+            info["inlined_calls"] = r.inlined_calls
+            info["inlined_helpers"] = sorted({g for _, g in r.log})[:40]
+    return prog, info
 
 
 # ----------------------------------------------------------------------------------------
@@ -1034,6 +1056,50 @@ def switch_edges(fn, bi):
     d = {v: b for v, b in t["targets"]}
     d["otherwise"] = t["otherwise"]
     return d
+
+
+def int_test_edges(fn, R, bi):
+    """for a switch block: (tested value tree, {constant: successor taken when value == constant}, successors taken
+    otherwise).  Unifies `if x == k` / `if x != k` (a bool switch on a comparison) with `match x { k => .., _ => .. }`
+    (a switch on the value itself).  None when the block does not test a value against constants."""
+    t = fn.blocks[bi]["term"]
+    if t["k"] != "switch":
+        return None
+    dl = op_place(t["discr"])
+    if dl is None:
+        return None
+    d = strip(R.place(dl))
+    e = switch_edges(fn, bi)
+    if d[0] == "binop" and d[1] in ("Eq", "Ne"):
+        a, b = d[2], d[3]
+        ka, kb = _tree_const(a), _tree_const(b)
+        if (ka is None) == (kb is None):
+            return None
+        val, k = (b, ka) if ka is not None else (a, kb)
+        true_succ, false_succ = e.get("1", e["otherwise"]), e.get("0")
+        if false_succ is None:
+            return None
+        if d[1] == "Eq":
+            return val, {k: true_succ}, [false_succ]
+        return val, {k: false_succ}, [true_succ]
+    if d[0] == "binop" or d[0] == "discr":
+        return None
+    cases = {}
+    for v, b in fn.blocks[bi]["term"]["targets"]:
+        try:
+            cases[int(v)] = b
+        except ValueError:
+            return None
+    return d, cases, [e["otherwise"]]
+
+
+def _tree_const(t):
+    t = strip(t)
+    while t[0] == "cast":
+        t = strip(t[2])
+    if t[0] == "const" and isinstance(t[2], int):
+        return t[2]
+    return None
 
 
 def branch_of_call(fn, bi):
